@@ -304,6 +304,17 @@ func TestVerifC01(t *testing.T) {
 				_ = Ro.open(wd.g, e["S1"])
 				_ = Ro.open(wd.g, e["S2"])
 				check(wd, "forge-after-open-"+sn, fmt.Sprintf("counter=%d", k), Ro, wd.g, mut, nil, true)
+				// two cooperating steps: F first relays S's GENUINE message k as a push payload that names the entry
+				// identifier of the forged envelope (the identifier inside a push payload is chosen by its sender), the
+				// receiver opens that push (rightly); then the forged envelope arrives through the log
+				if name := fmt.Sprintf("S%d", k); e[name] != nil {
+					genuine := parse(e[name])
+					relay := &protocoltypes.OutOfStoreMessage{Cid: cidOf(mut).Bytes(), DevicePk: sDevRaw, Counter: k, Sig: clearHeaders[name].Sig, EncryptedPayload: genuine.Message, Nonce: genuine.Nonce}
+					Rr := wd.R.cloneParty()
+					_, _, rerr := Rr.st.OutOfStoreMessageOpen(context.Background(), relay, groupPK(wd.g))
+					rep.Eval(fmt.Sprintf("%s/relayed-genuine-push/opened=%v", wd.kind, rerr == nil))
+					check(wd, "forge-after-relayed-push-"+sn, fmt.Sprintf("counter=%d", k), Rr, wd.g, mut, nil, true)
+				}
 				// the same forgery as a push payload (the out-of-store box is under the group secret too, F can build
 				// it): with no entry identifier, and naming the identifier of a message the receiver has / has not opened
 				for _, ref := range []string{"none", "S1", "S2"} {
